@@ -222,6 +222,11 @@ def checks(outdir):
             continue
         diff = os.path.join(outdir, m["id"] + ".diff")
         rc, out = sh(f"git apply {diff}", cwd=wt)
+        if rc != 0:
+            cres[m["id"]] = {"caught": None, "log": [{"prop": "-", "rc": -1, "violations": 0, "machinery": "patch does not apply to the current tree"}], "seconds": 0}
+            json.dump(cres, open(cpath, "w"), indent=1)
+            print(m["id"], "patch does not apply", flush=True)
+            continue
         caught = None
         log = []
         t0 = time.time()
